@@ -38,7 +38,7 @@ def run(chk, repo, tier):
     chk.clause('C15-b', 'one value per wavelength: wave and value are updated together with twin right-hand sides', 6)
     chk.clause('C15-c', 'retained samples are not altered: selections / stacking of the original arrays only', 5)
     chk.clause('C15-d', 'closed ranges: crop keeps min <= w <= max, integrate selects start <= w <= end, trim keeps first..last', 5)
-    chk.clause('C15-e', 'bin: one value per centre; power preservation multiplies all bins by one common factor', 3)
+    chk.clause('C15-e', 'bin: one value per centre; power preservation multiplies all bins by one common factor; edges keep their fractions', 4)
     chk.clause('C15-f', 'quadrature terms are the textbook trapezoid and Simpson terms over consecutive edges', 4)
     chk.not_decided += ['linearity, additivity, exactness of the quadratures', 'positivity of Simpson weights']
 
@@ -324,6 +324,7 @@ def run(chk, repo, tier):
                tri(okl), '; '.join(und), fb.loc())
         chk.ob('C15-e', 'N-identity', fb.key, f'power preservation rescales all bins by integrate(min, max)/sum(bins) [{label}]',
                tri(okp), '; '.join(und), fb.loc())
+    edge_grid_dtype_rule(chk, repo, fb, 'C15-e')
     # bin edges: midpoints between centres; end treatment symmetric (half a step outwards) or inside (the end centres)
     wv = S('wave')
     dx = nf.app('diff', wv) / 2
@@ -480,3 +481,60 @@ def integrate_selection_rule(chk, repo, clause):
 
 def _is_self_array(v, name):
     return isinstance(v, Poly) and v in sattr(name)
+
+
+def edge_grid_dtype_rule(chk, repo, fb, clause):
+    """The bin edges are midpoints between the centres (centre + step/2): fractional even for integer centres.  They may
+    be collected in any array that holds fractions - not in one allocated with the element type of the caller's centres,
+    where bin([2, 3]) stores the edge 2.5 as 2."""
+    from .. import dtypes
+    from .c17 import _inherits_param
+    for method in ('trapz', 'simps'):
+        bad, n = [], 0
+        for ends in ('symmetric', 'inside'):
+            _, pb, _ = analyse(repo, fb, config={'interp_method': Const(method), 'ends': Const(ends), 'preserve_power': FALSE,
+                                                 'waveunit': nf.attr(SELF, 'waveunit')})
+            for p in returns(pb):
+                known = dtypes.constraints(p.conds)
+                for e in p.events:
+                    if not (e.kind == 'write' and e.data.get('how') == 'setitem' and isinstance(e.target, Poly)):
+                        continue
+                    vk = dtypes.kinds(e.data.get('value'), known)
+                    if not (vk <= dtypes.FLOATING):
+                        continue
+                    n += 1
+                    # where the array that is written to was allocated
+                    t = e.target
+                    for _ in range(12):
+                        ta = t.single_atom()
+                        if ta is not None and is_app(ta, 'setitem') and isinstance(ta[2][0], Poly):
+                            t = ta[2][0]
+                        else:
+                            break
+                    ta = t.single_atom()
+                    src = None
+                    if ta is not None and is_app(ta, ('empty', 'zeros', 'ones', 'full')):
+                        for x in ta[2]:
+                            if isinstance(x, Tup):
+                                for pr in x.items:
+                                    if isinstance(pr, Tup) and len(pr) == 2 and pr.items[0] == Const('dtype') and isinstance(pr.items[1], Poly):
+                                        da = pr.items[1].single_atom()
+                                        if da is not None and da[0] == 'attr' and da[2] == 'dtype':
+                                            src = da[1]
+                    elif ta is not None and is_app(ta, ('empty_like', 'zeros_like', 'ones_like', 'full_like')) and isinstance(ta[2][0], Poly):
+                        src = ta[2][0].single_atom()
+                    if src is not None and dtypes.kinds(Poly.atom(src), known) == dtypes.ANY and _inherits_param(src, known):
+                        bad.append(f'{fmt(e.data["value"])[:60]} is stored into an array allocated with the element type of '
+                                   f'`{fmt(Poly.atom(src))[:30]}` @ {e.loc()} [{method}]')
+                # ... and the edges handed to sample() were not converted to that type on the way
+                for c_ in p.calls(f'{SPEC}.sample'):
+                    for a in nf.value_atoms(c_.bound.get('wave')) if c_.bound.get('wave') is not None else ():
+                        if is_app(a, ('cast', 'm:astype')) and len(a[2]) > 1 and isinstance(a[2][1], Poly) and isinstance(a[2][0], Poly):
+                            da = a[2][1].single_atom()
+                            if da is not None and da[0] == 'attr' and da[2] == 'dtype' and _inherits_param(da[1], known) and \
+                                    dtypes.kinds(a[2][0], known) <= dtypes.FLOATING:
+                                bad.append(f'the edges {fmt(a[2][0])[:60]} are converted to the element type of '
+                                           f'`{fmt(Poly.atom(da[1]))[:30]}` [{method}]')
+        chk.ob(clause, 'T-dtype', fb.key, f'fractional bin edges are kept in an array that holds fractions [{method}]', not bad,
+               ('; '.join(sorted(set(bad))[:2]) + ': with integer centres the midpoints are truncated, bin([2, 3]) of a flat spectrum '
+                'of 2 over unit bins gives [1, 3] instead of [2, 2]') if bad else f'{n} store(s) of fractional values examined', fb.loc())
